@@ -528,6 +528,15 @@ func (p *Proc) evalSpecCall(ec *ectx, name string, call *ast.CallExpr) (Val, boo
 		return Val{T: Sel(card, m.T), Typ: types.Typ[types.Int]}, true
 	case "spawned":
 		return Val{T: p.heapGet(ec.st, "G:$spawned", SInt), Typ: types.Typ[types.Int]}, true
+	case "backing":
+		// the backing array of a slice, as a value (for whole-array equalities)
+		v := p.eval(ec, call.Args[0])
+		sl, ok := v.Typ.Underlying().(*types.Slice)
+		if !ok {
+			p.failf(call, "%s: backing() needs a slice", ec.where)
+		}
+		h := p.sliceHeap(ec.st, sl.Elem())
+		return Val{T: Sel(h, SlArr(v.T)), Typ: types.NewArray(sl.Elem(), 0)}, true
 	case "callcount":
 		// number of calls (through contracts) to functions with this name made by this procedure
 		lit, ok := call.Args[0].(*ast.BasicLit)
